@@ -61,7 +61,7 @@ DECIDES = ('C37-WHY: the exit code trap_parallel_exit stores into parallel_why f
 NOT_DECIDED = ('everything schedule-dependent: that reductions/lastprivate give sequential results for every thread count, schedule and chunk size; the nsteps/index '
                'arithmetic for strides beyond the enumerated moduli and for C integer overflow / the int-typed abs() on wide index types; absence of data races in user bodies; the OpenMP flush placement; privatisation of closure '
                'variables; that every temporary a region uses is obtained through FunctionState.allocate_temp while the region is generated (temps allocated before the region and '
-               'still live inside it - start/stop/step, nsteps - are shared on purpose); collectors nested deeper than one (C37-TEMPREG evaluates one active collector); loops of '
+               'still live inside it - start/stop/step, nsteps - are shared on purpose); collectors nested deeper than two (C37-TEMPREG evaluates an enclosing and an innermost collector); loops of '
                'allocate_temp beyond two iterations; which of several simultaneously raised exceptions wins.  The LIFO order of GIL vs free-threading lock is not required (only that the '
                'transfer is inside both).  The firstprivate clause of user variables, the shared() clause and the '
                'flush placement are not checked; C37-FLOW decides the presence of lastprivate/reduction clauses per variable class, not their position inside the pragma line.')
@@ -161,6 +161,23 @@ SILENT_EDITS += [   # fourth round (15 rewrites, all silent after three rules we
     'generate_loop: reduction/private decision with `continue` and a local flag; sorted privates held in a local; guard insertion point renamed',
     '`int why = 0;` as one statement; dispatch under `if (why != 0) {`',
     'range arguments by indexing; part transfer by a setattr/getattr loop; is_parallel by if/else; stack handling with locals; operator passed by keyword; loop variables renamed',
+]
+
+MUTATIONS += [   # round 6 (seed C37h: recycled temps not registered in the collector) - patches under mutants/C37/, 15 breaking all reported
+    ('Cython/Compiler/Code.py', 'allocate_temp: registration only in the fresh-name branch (seed) / only for manage_ref / early return of the free-list branch / only for zombies / (type, result) / '
+     'collect_temps_stack[0]', 'C37-TEMPREG reg:FunctionState.allocate_temp'),
+    ('Cython/Compiler/Code.py', 'stop_collecting_temps: pop(0)', 'C37-TEMPREG stack:stop'),
+    ('Cython/Compiler/Nodes.py', 'generate_loop: start_collecting_temps after the body; ParallelWithBlockNode: privatize_temps before the body', 'C37-TEMPPRIV priv:<method>:<world>:collect'),
+    ('Cython/Compiler/Nodes.py', 'privatize_temps: memoryview temps private; `elif firstprivates`; clauses only under breaking_label_used', 'C37-TEMPPRIV priv:...:firstprivate:<kind> / clause:<kind>'),
+    ('Cython/Compiler/Nodes.py', 'privatize_temps writes through `code`; insertion point captured after the pragma line was terminated', 'C37-TEMPPRIV priv:...:place:<kind>'),
+    ('Cython/Compiler/Nodes.py', 'generate_loop: collector pushed for a prange inside `with parallel()` and never popped; privatize_temps also for nested pranges', 'C37-TEMPPRIV priv:...:balance'),
+]
+SILENT_EDITS += [   # round 6 (8 rewrites, all silent; C37-LBL body-before-trap did not follow `b = self.body` and was repaired)
+    'allocate_temp: registration through a helper method with an early return / duplicated into both branches with `len(stack) > 0` and a local for the collector',
+    'start/stop_collecting_temps via `+= [set()]` and `del stack[-1]`',
+    'privatize_temps: `if not self.is_parallel: return`, clause lists by comprehension, clauses in a loop with f-strings',
+    'generate_loop: ownership condition in a local flag with if/else exchanged, funcstate in a local; pragma line + point capture moved into a helper method',
+    'ParallelWithBlockNode: pragma text as f-string, point / funcstate / body held in locals',
 ]
 
 
